@@ -83,6 +83,19 @@ def run(tier):
         if rr.violated:
             raise MachineryError("Region.tla design model violates %s (%s)" % (rr.violated, cfg))
         run.add_model(rr, "%s: breadth-first region tracking on ideal slabs / tori (Complete, NoOverride, WindingExact, WindingRankExact)" % cfg)
+    # crystals with missing atoms (what an adsorbate site / a vacancy looks like to the region tracking): the winding criterion
+    # never names a non-periodic direction, and the tracked region is exactly what is joined to the seed through occupied cells
+    for cfg in (("Region_vac2d.cfg",) if tier == "quick" else ("Region_vac.cfg", "Region_vac2d.cfg")):
+        rr = tlc.run("Region.tla", cfg, timeout=1800)
+        if rr.violated:
+            raise MachineryError("Region.tla design model violates %s (%s)" % (rr.violated, cfg))
+        run.add_model(rr, "%s: up to two vacant sites (Complete = reachable through occupied cells, WindingSound, WindingRankSound)" % cfg)
+    if tier == "thorough":
+        # sensitivity: the criterion as found (a node with incoming +e and -e edges) names a non-periodic direction once sites are vacant
+        sens = tlc.run("Region.tla", "Region_asfound.cfg", timeout=1800, must_pass=False)
+        run.notes["Region_asfound_refuted"] = sens.violated
+        if sens.violated != "OldHeuristicSound":
+            run.model_drift("Region_asfound.cfg is expected to refute OldHeuristicSound (the defect repaired by 4514eff); TLC says %s" % (sens.violated or sens.error or "no violation"))
     jobs = [(dsc, s) for dsc in descriptors(tier) for s in ([0] if tier == "quick" else [0, 1])]
     recs = pmap(execute, jobs, chunksize=1)
     keep, skipped = [], {}
